@@ -11,6 +11,7 @@
  *        k      : 1-based index among the matching calls; 0 = every matching call
  *        action : eio enospc  (the call fails with that errno, nothing is done)
  *                 flip        (write/pwrite: one bit of the data is altered on its way to the file, the call succeeds)
+ *                 stopb       (SIGSTOP before the call; the call is made after SIGCONT)
  *                 killb       (SIGKILL before the call)        killa  (SIGKILL right after the call)
  *                 short       (write/pwrite: half of the bytes are written, then SIGKILL)
  *                 sigint      (SIGINT to the process after the call)   sigterm
@@ -218,6 +219,11 @@ static int pre(struct rule* r, const char* call, const char* path, long long off
 	if (strcmp(r->action, "killb") == 0) {
 		emit(call, path, 0, off, len, -1, 0, "killb");
 		die();
+	}
+	if (strcmp(r->action, "stopb") == 0) {
+		/* stopped before the call is made; it is made when the process is continued */
+		syscall(SYS_kill, getpid(), SIGSTOP);
+		return 0;
 	}
 	if (strcmp(r->action, "eio") == 0) {
 		emit(call, path, 0, off, len, -1, EIO, "eio");
